@@ -229,6 +229,22 @@ class Loop:
             if len(rs) != 1 or isinstance(rs[0][1], Raised):
                 raise Unsupported(s, 'for-iter forks')
             st, seqv = rs[0]
+            if seqv.k == 'range' and seqv.items is None:
+                a = seqv.extra['args']
+                if not all(x.k == 'int' for x in a):
+                    raise Unsupported(s, 'range over non-int arguments')
+                start = a[0].z if len(a) > 1 else z3.IntVal(0)
+                stop = a[1].z if len(a) > 1 else a[0].z
+                step = a[2].z if len(a) > 2 else z3.IntVal(1)
+                sv = z3.simplify(step)
+                if not (z3.is_int_value(sv) and sv.as_long() > 0):
+                    raise Unsupported(s, 'range step must be a positive constant')
+                k = sv.as_long()
+                n = z3.If(stop > start, (stop - start + (k - 1)) / k, 0)
+                seqv = V('seq', extra={'len': n, 'get': (
+                    lambda eng_, i, st_, _s=start, _k=k: vint(_s + i * _k))})
+            if seqv.k == 'dyn':
+                seqv = eng.as_seq(seqv, st)
             if seqv.k not in ('seq',):
                 raise Unsupported(s, 'invariant loop over %r' % (seqv,))
         idx_name = '__i%d' % ordinal
